@@ -34,6 +34,203 @@ SHAPES = [
 ]
 
 
+SWEEP = 0.5037616150469717  # the fixed rotation of model2d's misalignMesh (sweep frame = input rotated by -SWEEP)
+
+
+def _nudges(rnd, g, draw):
+    """g pairwise different offsets of the sweep-frame x coordinate, |d| in 1e-12 .. 1e-9, both signs"""
+    while True:
+        if draw == 0:
+            ds = [(1 if i % 2 else -1) * 1e-9 * (1 - 0.07 * i) for i in range(g)]
+        elif draw == 1:
+            ds = [(-1 if i % 2 else 1) * 1e-11 * (1 + 0.3 * i) for i in range(g)]
+        else:
+            ds = [rnd.choice((-1, 1)) * 10 ** rnd.uniform(-12, -9) for _ in range(g)]
+        if draw == 3:
+            ds[rnd.randrange(g)] = 0.0      # one vertex stays on the lattice line
+        if all(abs(a - b) >= 1e-12 and abs(a - b) < 4e-9 for i, a in enumerate(ds) for b in ds[:i]):
+            return ds
+
+
+def tie_cases(seed, draws):
+    """Regions (comb / Sigma outlines, holes) given in the sweep frame of TriangulateMesh: every vertex has its own
+    integer x, except the members of one or two tie groups (prong tips; a pair of notches between prongs and/or extreme
+    vertices of holes), which sit on a common lattice line and are nudged off it by 1e-12 .. 1e-9.  Groups of
+    split/merge vertices (notches, holes) have two members: three of them on one line are three mutually visible
+    vertices colinear to within 1e-10 rad, a different (ill-conditioned) class of input (reported separately as a finding)."""
+    import itertools
+    import random
+    rnd = random.Random(1000 + seed)
+
+    def comb(k, tie_tips, notch_pair, holes, hole_pair):
+        ring, groups = [[30, -4], [29, 4 * k + 2]], {}
+        for i in range(k - 1, -1, -1):
+            ring.append([0 if tie_tips else i, 4 * i + 1])
+            if tie_tips:
+                groups.setdefault("t", []).append((0, len(ring) - 1))
+            if i > 0:
+                ring.append([8 if i in notch_pair else 9 + i, 4 * i - 1])
+                if i in notch_pair:
+                    groups.setdefault("n", []).append((0, len(ring) - 1))
+        rings = [ring]
+        for j in holes:
+            # a triangular hole inside prong j; its extreme vertex is on the line of the tied notches
+            rings.append([[8 if j in hole_pair else 7 - j, 4 * j + 1], [15 + 2 * j, 4 * j], [16 + 2 * j, 4 * j + 2]])
+            if j in hole_pair:
+                groups.setdefault("n", []).append((len(rings) - 1, 0))
+        return rings, list(groups.values())
+
+    def holed(m, pair):
+        rings, grp = [[[-3, -2], [40, -1], [39, 4 * m + 1], [-2, 4 * m]]], []
+        for j in range(m):
+            rings.append([[5 if j in pair else 4 - j, 4 * j + 1], [8 + 2 * j, 4 * j], [9 + 2 * j, 4 * j + 2]])
+            if j in pair:
+                grp.append((j + 1, 0))
+        return rings, [grp]
+
+    shapes = []
+    for k in (2, 3, 4, 5):
+        shapes.append(("comb%d-tips" % k, lambda d, k=k: comb(k, True, (), (), ())))
+    for k in (3, 4, 5):
+        pairs = list(itertools.combinations(range(1, k), 2))
+        shapes.append(("comb%d-notches" % k, lambda d, k=k, pairs=pairs: comb(k, False, pairs[d % len(pairs)], (), ())))
+        shapes.append(("comb%d-both" % k, lambda d, k=k, pairs=pairs: comb(k, True, pairs[(d + 1) % len(pairs)], (), ())))
+    for k in (2, 3, 4):
+        # one notch and the hole in a prong next to it / two holes / tips and two holes
+        shapes.append(("comb%d-notch-hole" % k, lambda d, k=k: comb(k, False, (1 + d % (k - 1),), (d % k,), (d % k,))))
+        shapes.append(("comb%d-holes" % k, lambda d, k=k: comb(k, False, (), range(k), (d % k, (d + 1) % k))))
+        shapes.append(("comb%d-tips-holes" % k, lambda d, k=k: comb(k, True, (), (0, k - 1), (0, k - 1))))
+    for m in (2, 3, 4):
+        pairs = list(itertools.combinations(range(m), 2))
+        shapes.append(("holes%d" % m, lambda d, m=m, pairs=pairs: holed(m, pairs[d % len(pairs)])))
+    # the Sigma of two prongs (doubled coordinates)
+    shapes.append(("sigma", lambda d: ([[[0, 6], [10, 8], [11, 0], [0, 2], [6, 4]]], [[(0, 0), (0, 3)]])))
+    cases = []
+    for name, make in shapes:
+        for mirror in (False, True):
+            for d in range(draws):
+                rings, groups = make(d)
+                if not _region_ok(rings):
+                    raise Infra("generator: region %s is not valid" % name)
+                dx = [[0.0] * len(r) for r in rings]
+                for g in groups:
+                    for (k, i), v in zip(g, _nudges(rnd, len(g), d)):
+                        dx[k][i] = v
+                rr = [[[-x, y] if mirror else [x, y] for x, y in r] for r in rings]
+                dd = [[-v for v in r] for r in dx] if mirror else dx
+                cases.append({"name": "%s%s-d%d" % (name, "-mirror" if mirror else "", d), "rings": rr, "dx": dd,
+                              "exp": 0})
+    return cases
+
+
+def _region_ok(rings):
+    """exact: every ring simple, rings pairwise disjoint, every further ring strictly inside the first"""
+    def cr(o, a, b):
+        return (a[0] - o[0]) * (b[1] - o[1]) - (a[1] - o[1]) * (b[0] - o[0])
+
+    def sg(x):
+        return (x > 0) - (x < 0)
+
+    def onseg(a, b, c):
+        return cr(a, b, c) == 0 and min(a[0], b[0]) <= c[0] <= max(a[0], b[0]) and min(a[1], b[1]) <= c[1] <= max(a[1], b[1])
+
+    def meet(a, b, c, d):
+        return (sg(cr(a, b, c)) * sg(cr(a, b, d)) < 0 and sg(cr(c, d, a)) * sg(cr(c, d, b)) < 0) or \
+            onseg(a, b, c) or onseg(a, b, d) or onseg(c, d, a) or onseg(c, d, b)
+
+    def wind(r, p):
+        w = 0
+        for i in range(len(r)):
+            a, b = r[i], r[(i + 1) % len(r)]
+            if a[1] <= p[1]:
+                if b[1] > p[1] and cr(a, b, p) > 0:
+                    w += 1
+            elif b[1] <= p[1] and cr(a, b, p) < 0:
+                w -= 1
+        return w
+    if not all(_simple(r) for r in rings):
+        return False
+    for x, r in enumerate(rings):
+        for q in rings[:x]:
+            for i in range(len(r)):
+                for j in range(len(q)):
+                    if meet(r[i], r[(i + 1) % len(r)], q[j], q[(j + 1) % len(q)]):
+                        return False
+        if x > 0 and not all(wind(rings[0], p) != 0 for p in r):
+            return False
+        if any(wind(r, p) != 0 for q in rings[1:x] for p in q) or any(wind(q, p) != 0 for q in rings[1:x] for p in r):
+            return False
+    return True
+
+
+def _simple(ring):
+    """exact: no colinear consecutive triple, no two non-adjacent edges with a common point"""
+    n = len(ring)
+
+    def cr(o, a, b):
+        return (a[0] - o[0]) * (b[1] - o[1]) - (a[1] - o[1]) * (b[0] - o[0])
+
+    def sg(x):
+        return (x > 0) - (x < 0)
+
+    def onseg(a, b, c):
+        return cr(a, b, c) == 0 and min(a[0], b[0]) <= c[0] <= max(a[0], b[0]) and min(a[1], b[1]) <= c[1] <= max(a[1], b[1])
+    if len({tuple(p) for p in ring}) != n:
+        return False
+    for i in range(n):
+        if cr(ring[i - 1], ring[i], ring[(i + 1) % n]) == 0:
+            return False
+    for i in range(n):
+        a, b = ring[i], ring[(i + 1) % n]
+        for j in range(i + 2, n):
+            if i == 0 and j == n - 1:
+                continue
+            c, d = ring[j], ring[(j + 1) % n]
+            if sg(cr(a, b, c)) * sg(cr(a, b, d)) < 0 and sg(cr(c, d, a)) * sg(cr(c, d, b)) < 0:
+                return False
+            if onseg(a, b, c) or onseg(a, b, d) or onseg(c, d, a) or onseg(c, d, b):
+                return False
+    return True
+
+
+def big_polygons(seed, sizes_flower, teeth):
+    """Simple integer polygons with 60 .. 130 vertices, none colinear with its neighbours: flowers (a star-shaped
+    outline with many reflex vertices), stars (alternating radii) and sawtooth combs."""
+    import math
+    import random
+    rnd = random.Random(2000 + seed)
+    out = []
+    for n in sizes_flower:
+        for kind in ("flower", "star"):
+            for _try in range(50):
+                petals, rad, ph = rnd.choice((5, 7, 9)), rnd.randrange(150, 260), rnd.uniform(0, 6.28)
+                ring = []
+                for i in range(n):
+                    th = 2 * math.pi * i / n
+                    if kind == "flower":
+                        r = rad * (1 + 0.45 * math.cos(petals * th + ph))
+                    else:
+                        r = rad * (1.0 if i % 2 == 0 else 0.55 + 0.1 * rnd.random())
+                    ring.append([int(round(r * math.cos(th + ph))) + 300, int(round(r * math.sin(th + ph))) + 300])
+                if kind == "star" and n % 2:
+                    ring[-1] = [(ring[-2][0] + ring[0][0]) // 2 + 1, (ring[-2][1] + ring[0][1]) // 2 + 2]
+                if _simple(ring):
+                    out.append(ring)
+                    break
+            else:
+                raise Infra("no simple %s with %d vertices" % (kind, n))
+    for t in teeth:
+        off = rnd.randrange(0, 3)
+        ring = [[0, -10], [10 * t, -13 - off]]
+        for i in range(t - 1, -1, -1):
+            ring.append([10 * i + 7, 20 + (i * 3 + off) % 7])
+            ring.append([10 * i + 3, (i * 5 + off) % 4])
+        if not _simple(ring):
+            raise Infra("comb with %d teeth is not simple" % t)
+        out.append(ring)
+    return out
+
+
 def stage(ctx, name, gen_module, gen_cfg, mode, variants, sample=None, explicit=None):
     if explicit is not None:
         cases = [json.dumps(c) for c in explicit]
@@ -54,8 +251,8 @@ def stage(ctx, name, gen_module, gen_cfg, mode, variants, sample=None, explicit=
             fh.write(c + "\n")
     rpath = os.path.join(ctx.dir, "records-%s.ndjson" % name)
     spath = os.path.join(ctx.dir, "stats-%s.json" % name)
-    ctx.drv(["c14-tri", "in=" + cpath, "out=" + rpath, "stats=" + spath, "mode=" + mode, "variants=%d" % variants],
-            timeout=1500)
+    ctx.drv(["c14-tri", "in=" + cpath, "out=" + rpath, "stats=" + spath, "mode=" + mode, "variants=%d" % variants,
+             "seed=%d" % ctx.seed], timeout=1500)
     stats = json.load(open(spath))
     j = ctx.tlc("J-" + name, "tri/PolygonJudge", JUDGE, data={"records.ndjson": rpath}, workers=16, timeout=3000,
                 heap="12g")
@@ -100,8 +297,13 @@ def run(ctx):
         stage(ctx, "poly44", "PolygonGen", PGEN % (4, 4, 5), "polygon", 2, sample=1500)
         stage(ctx, "regions", "RegionGen", RGEN % 1, "region", 0)
         stage(ctx, "shapes", None, None, "polygon", 2, explicit=SHAPES)
+        stage(ctx, "sweep-ties", None, None, "placed", 0, explicit=tie_cases(ctx.seed, 3))
+        stage(ctx, "large", None, None, "bigpolygon", 0, explicit=big_polygons(ctx.seed, (64, 100), (31, 45)))
     else:
         stage(ctx, "shapes", None, None, "polygon", 6, explicit=SHAPES)
+        stage(ctx, "sweep-ties", None, None, "placed", 0, explicit=tie_cases(ctx.seed, 4) + tie_cases(ctx.seed + 50, 4)[2::4])
+        stage(ctx, "large", None, None, "bigpolygon", 0,
+              explicit=big_polygons(ctx.seed, (63, 64, 65, 90, 130), (31, 32, 50, 64)))
         stage(ctx, "poly33", "PolygonGen", PGEN % (3, 3, 7), "polygon", 0)
         stage(ctx, "poly44", "PolygonGen", PGEN % (4, 4, 6), "polygon", 4)
         stage(ctx, "poly53", "PolygonGen", PGEN % (5, 3, 6), "polygon", 2, sample=8000)
